@@ -1038,6 +1038,77 @@ Proof.
   - destruct (fsm_state n'); try discriminate; simpl; auto.
 Qed.
 
+(* 3b, total form: under the same hypotheses FiniteStateMachine.next SUCCEEDS (no exception, no unbounded loop:
+   at most two transitions follow the first one) *)
+Lemma slave_step : forall fuel n d orcs now acc,
+  slave_inv n -> follows_master d = true -> d <> fsm_state n -> refused (fsm_state n) d = false ->
+  exists n3 X acc',
+    set_state (S fuel) n (Some d) orcs now acc = set_state fuel n3 (Some X) (snd (next_orcs orcs)) now acc'
+    /\ slave_inv n3 /\ fsm_state n3 = d /\ master_state n3 = Some X /\ master_state n = Some X.
+Proof.
+  intros fuel n d orcs now acc Hinv Hd Hne Href.
+  rewrite set_state_step by auto. rewrite enter_state_fst by (destruct d; discriminate).
+  pose proof Hinv as [Hr Hcm Him Hmb].
+  destruct (set_fsm_pres n d (r_wf _ Hr)) as [P1 [F1 M1]]. specialize (M1 Him).
+  set (n1 := fst (set_fsm n d)) in *.
+  assert (Hinv1 : slave_inv n1) by (apply (slave_inv_pres n n1 P1 M1); auto).
+  assert (Hfm1 : follows_master (fsm_state n1) = true) by (rewrite F1; auto).
+  pose proof (slave_follows_res n1 (fst (next_orcs orcs)) now (si_ready _ Hinv1) Hfm1 (si_cm _ Hinv1)
+                                (si_im _ Hinv1)) as Hn.
+  apply res_ok_ex in Hn. destruct Hn as [n3 [o3 [d3 [E3 [Hd3 [P3 [F3 M3]]]]]]].
+  rewrite E3.
+  assert (Hinv3 : slave_inv n3) by (apply (slave_inv_pres n1 n3 P3 M3); auto).
+  pose proof (si_mb _ Hinv1) as Hmb1. unfold master_beyond in Hmb1. rewrite <- Hd3 in Hmb1.
+  destruct d3 as [X|]; [|discriminate].
+  exists n3, X. eexists. split; [reflexivity|]. split; auto. split; [congruence|]. split; congruence.
+Qed.
+
+Lemma slave_one : forall fuel n d orcs now acc,
+  slave_inv n -> follows_master d = true -> master_state n = Some d ->
+  exists n' outs, set_state (S fuel) n (Some d) orcs now acc = Ok (n', outs).
+Proof.
+  intros fuel n d orcs now acc Hinv Hd Hms.
+  destruct (sstate_eqb d (fsm_state n)) eqn:E1.
+  { apply sstate_eqb_eq in E1. rewrite set_state_same by auto. eauto. }
+  destruct (refused (fsm_state n) d) eqn:E2.
+  { rewrite refused_keeps_state by auto. eauto. }
+  assert (Hne : d <> fsm_state n). { intros C. subst d. rewrite sstate_eqb_refl in E1. discriminate. }
+  destruct (slave_step fuel n d orcs now acc Hinv Hd Hne E2) as [n3 [X [acc' [E [Hinv3 [F3 [M3 M0]]]]]]].
+  rewrite E. assert (X = d) by congruence. subst X. rewrite set_state_same by auto. eauto.
+Qed.
+
+Lemma slave_two : forall fuel n d orcs now acc,
+  slave_inv n -> follows_master d = true ->
+  exists n' outs, set_state (S (S fuel)) n (Some d) orcs now acc = Ok (n', outs).
+Proof.
+  intros fuel n d orcs now acc Hinv Hd.
+  destruct (sstate_eqb d (fsm_state n)) eqn:E1.
+  { apply sstate_eqb_eq in E1. rewrite set_state_same by auto. eauto. }
+  destruct (refused (fsm_state n) d) eqn:E2.
+  { rewrite refused_keeps_state by auto. eauto. }
+  assert (Hne : d <> fsm_state n). { intros C. subst d. rewrite sstate_eqb_refl in E1. discriminate. }
+  destruct (slave_step (S fuel) n d orcs now acc Hinv Hd Hne E2) as [n3 [X [acc' [E [Hinv3 [F3 [M3 M0]]]]]]].
+  rewrite E. apply slave_one; auto.
+  pose proof (si_mb _ Hinv3) as Hmb. unfold master_beyond in Hmb. rewrite M3 in Hmb.
+  destruct X; try discriminate; reflexivity.
+Qed.
+
+Theorem election_slave_total : forall n orcs now,
+  own_wf n -> fsm_state n = ELECTION -> local_running n = true -> quiet n -> no_strategy (n_opts n) = true ->
+  stable_after n = true -> check_master n = Ok true -> is_master n = false -> master_beyond n = true ->
+  exists n' outs, fsm_run n orcs now = Ok (n', outs) /\ In (fsm_state n') [DISTRIBUTION; OPERATION; CONCILIATION].
+Proof.
+  intros n orcs now Hwf Hst Hlr Hq Hns Hsa Hcm Him Hmb.
+  destruct (election_slave_not_parked n orcs now Hwf Hst Hlr Hq Hns Hsa Hcm Him Hmb) as [[n1 [o1 [E P]]] [_ Hfin]].
+  assert (Hrun : exists n' outs, fsm_run n orcs now = Ok (n', outs)).
+  { unfold fsm_run. destruct (next_orcs orcs) as [orc rest]. simpl in E. rewrite E.
+    destruct P as [Pp [Pf Pm]].
+    assert (Hinv1 : slave_inv n1).
+    { apply (slave_inv_pres n n1 Pp Pm). constructor; auto. constructor; auto. }
+    change loop_fuel with (S (S 38)). apply slave_two; auto. }
+  destruct Hrun as [n' [outs Hrun]]. exists n', outs. split; auto. eapply Hfin; eauto.
+Qed.
+
 (* ================================================================================================ *)
 (* E. Examples: the hypotheses of each theorem hold on a concrete node (built like drv_node.emit_node:  *)
 (*    instance 1 is the local one, three instances RUNNING), and what the real loop does on it          *)
@@ -1110,3 +1181,78 @@ Example slave_follows_master_state_hyps :
   master_state ex_slv = Some CONCILIATION /\
   final_state (fsm_run ex_slv [px_orc] 100) = Some (CONCILIATION, 2).
 Proof. ex_hyps. Qed.
+
+(* ================================================================================================ *)
+(* F. Termination of FiniteStateMachine.set_state: the statement: options consistent with              *)
+(*    SupvisorsOptions.check_options (TIMEOUT -> CONTINUE) => the loop terminates, is REFUTED.          *)
+(*    synchro_options = [STRICT; CORE], supvisors_failure_strategy = RESYNC, all the declared          *)
+(*    (initial) instances RUNNING and stable, the core instances not all RUNNING (here: no known core   *)
+(*    instance at all, mapper.core_identifiers filtered to []): SYNCHRONIZATION decides ELECTION         *)
+(*    (STRICT satisfied), ELECTION decides SYNCHRONIZATION (core failure + RESYNC), for ever.           *)
+(*    Replayed on the real classes: /tmp/replay/livelock2.py (RecursionError after 40 re-evaluations).  *)
+(* ================================================================================================ *)
+Definition lv_opts : options := mkOpts 2 false true false false true false 20 FS_RESYNC.
+Definition lv_own (s : sstate) : smodes := mkSm s false 0 [(1, IRUNNING); (2, IRUNNING); (3, ISTOPPED)].
+Definition lv_node (core : list Z) : node :=
+  mkNode 1 lv_opts core [1; 2] [(1, 1); (2, 2); (3, 3)]
+         [(1, mkIst IRUNNING 5 5 0); (2, mkIst IRUNNING 5 5 0); (3, mkIst ISTOPPED 0 0 0)]
+         [(1, lv_own SYNCHRONIZATION); (2, lv_own SYNCHRONIZATION); (3, sm_fresh)] [] false 0 [].
+
+Theorem set_state_terminates_refuted :
+  exists n orcs now,
+    (o_timeout (n_opts n) = true -> o_fstrategy (n_opts n) = FS_CONTINUE) /\
+    own_wf n /\ views_keyed n /\ quiet n /\ local_running n = true /\
+    (forall a b, In a orcs -> In b orcs -> a = b) /\
+    fsm_run n orcs now = Crash OutOfFuel.
+Proof.
+  exists (lv_node []), [px_orc], 100. split; [discriminate|].
+  split; [apply own_wf_b_sound; reflexivity|]. split; [apply views_keyed_b_sound; reflexivity|].
+  split; [apply quiet_b_sound; reflexivity|]. split; [reflexivity|]. split.
+  - intros a b [Ha|[]] [Hb|[]]. congruence.
+  - vm_compute. reflexivity.
+Qed.
+
+(* same with a known, declared-elsewhere core instance (3) that is not RUNNING (discovery mode) *)
+Example set_state_livelock_core_known : fsm_run (lv_node [3]) [px_orc] 100 = Crash OutOfFuel.
+Proof. vm_compute. reflexivity. Qed.
+
+(* it is a genuine cycle, not a long run: whatever the fuel, the loop started in the state reached after the first
+   evaluation never ends *)
+Definition lv_S : node :=
+  match fsm_next (lv_node []) px_orc 100 with Ok (n1, _, _) => n1 | Crash _ => lv_node [] end.
+Definition lv_step (n : node) (d : sstate) : eval :=
+  fsm_next (fst (enter_state (fst (set_fsm n d)) d 100)) (fst (next_orcs [px_orc])) 100.
+Definition lv_E : node :=
+  match lv_step lv_S ELECTION with Ok (n1, _, _) => n1 | Crash _ => lv_S end.
+
+Lemma lv_first : exists o, fsm_next (lv_node []) px_orc 100 = Ok (lv_S, o, Some ELECTION).
+Proof. eexists. vm_compute. reflexivity. Qed.
+Lemma lv_step1 : exists o, lv_step lv_S ELECTION = Ok (lv_E, o, Some SYNCHRONIZATION).
+Proof. eexists. vm_compute. reflexivity. Qed.
+Lemma lv_step2 : exists o, lv_step lv_E SYNCHRONIZATION = Ok (lv_S, o, Some ELECTION).
+Proof. eexists. vm_compute. reflexivity. Qed.
+
+Theorem set_state_livelock : forall fuel acc,
+  set_state fuel lv_S (Some ELECTION) [px_orc] 100 acc = Crash OutOfFuel.
+Proof.
+  assert (HS : fsm_state lv_S = SYNCHRONIZATION) by (vm_compute; reflexivity).
+  assert (HE : fsm_state lv_E = ELECTION) by (vm_compute; reflexivity).
+  assert (R1 : refused SYNCHRONIZATION ELECTION = false) by (vm_compute; reflexivity).
+  assert (R2 : refused ELECTION SYNCHRONIZATION = false) by (vm_compute; reflexivity).
+  destruct lv_step1 as [o1 E1]. destruct lv_step2 as [o2 E2]. unfold lv_step in E1, E2.
+  assert (B0 : forall acc, set_state 0 lv_S (Some ELECTION) [px_orc] 100 acc = Crash OutOfFuel).
+  { intros acc. cbn [set_state]. rewrite HS. vm_compute. reflexivity. }
+  assert (B0E : forall acc, set_state 0 lv_E (Some SYNCHRONIZATION) [px_orc] 100 acc = Crash OutOfFuel).
+  { intros acc. cbn [set_state]. rewrite HE. vm_compute. reflexivity. }
+  assert (H : forall k acc, set_state k lv_S (Some ELECTION) [px_orc] 100 acc = Crash OutOfFuel
+                            /\ set_state (S k) lv_S (Some ELECTION) [px_orc] 100 acc = Crash OutOfFuel).
+  { induction k as [|k IH]; intros acc.
+    - split; [apply B0|].
+      rewrite set_state_step; [| rewrite HS; discriminate | rewrite HS; exact R1]. rewrite E1. apply B0E.
+    - split; [apply IH|].
+      rewrite set_state_step; [| rewrite HS; discriminate | rewrite HS; exact R1]. rewrite E1.
+      rewrite set_state_step; [| rewrite HE; discriminate | rewrite HE; exact R2].
+      change (snd (next_orcs [px_orc])) with [px_orc]. rewrite E2.
+      change (snd (next_orcs [px_orc])) with [px_orc]. apply IH. }
+  intros fuel acc. apply H.
+Qed.
